@@ -53,3 +53,35 @@ Lemma shipped_parsers_total name vs bs : In (name, vs) enums ->
 Proof.
   intros H. apply parse_enum_total. intros nm c Hin. eapply shipped_enum_depth; eassumption.
 Qed.
+
+(* ---------- allocation (CodecSize.v): every shipped layout nests at most 10 deep, so a decoded packet holds at
+   most 12 units (characters, bytes, list elements) per byte of the APDU ---------- *)
+From Zvt Require Import CodecSize.
+
+Definition shipped_small_depth_ok : bool :=
+  forallb (fun x => match x with (_, _, fs) => Nat.leb (depth_fields fs) 10 end) structs &&
+  forallb (fun x => match x with (_, vs) =>
+             forallb (fun y => match y with (_, c) => Nat.leb (depth_fields (c_fields c)) 10 end) vs end) enums.
+Lemma shipped_small_depth : shipped_small_depth_ok = true.
+Proof. vm_compute. reflexivity. Qed.
+
+Lemma shipped_packets_sized name c i fs fuel bs v r : In (name, Some (c, i), fs) structs ->
+  dec_cmd fuel {| c_class := c; c_instr := i; c_fields := fs |} bs = Ok (v, r) -> wsize v <= 12 * blen bs.
+Proof.
+  intros H E. pose proof (dec_cmd_sized fuel _ bs v r E) as B. cbn [c_fields] in B.
+  pose proof shipped_small_depth as S. unfold shipped_small_depth_ok in S. apply andb_prop in S. destruct S as [S _].
+  rewrite forallb_forall in S. specialize (S _ H). cbv beta iota in S. apply Nat.leb_le in S.
+  unfold Kt, depth_fields in *. assert (2 + N.of_nat (depth (TStruct fs)) <= 12) by lia.
+  pose proof (N.mul_le_mono_r _ _ (blen bs) H0). lia.
+Qed.
+
+Lemma shipped_parsers_sized name vs fuel bs i v : In (name, vs) enums ->
+  parse_enum fuel vs bs = Ok (i, v) -> wsize v <= 12 * blen bs.
+Proof.
+  intros H E. destruct (parse_enum_sized fuel vs bs i v E) as [c [Hin B]].
+  apply in_map_iff in Hin. destruct Hin as [[nm c0] [Ec Hin]]. cbn in Ec. subst c0.
+  pose proof shipped_small_depth as S. unfold shipped_small_depth_ok in S. apply andb_prop in S. destruct S as [_ S].
+  rewrite forallb_forall in S. specialize (S _ H). cbv beta iota in S. rewrite forallb_forall in S. specialize (S _ Hin). cbv beta iota in S.
+  apply Nat.leb_le in S. unfold Kt, depth_fields in *. assert (2 + N.of_nat (depth (TStruct (c_fields c))) <= 12) by lia.
+  pose proof (N.mul_le_mono_r _ _ (blen bs) H0). lia.
+Qed.
